@@ -2,7 +2,7 @@
    Model: Heap/Forest.v (Node = config with is_node := true) and Heap/ForestPath.v (find_full_path).
    Proofs: Heap/ForestNames.v, Heap/ForestLookup.v. *)
 From BT Require Import Base.Prelude Base.Str Heap.Forest Heap.ForestWF Heap.ForestOps Heap.ForestStep
-     Heap.ForestPath Heap.ForestNames Heap.ForestLookup Algo.SearchProofs.
+     Heap.ForestPath Heap.ForestNames Heap.ForestLookup Algo.SearchProofs Base.StrSep.
 
 (* no two children of one parent have the same name, in every state reachable through the
    structural API (all operations, invalid arguments and failing hooks included) *)
@@ -65,6 +65,31 @@ Theorem C03_paths_distinct_partial : forall s n1 n2 c,
   path_name s n1 = path_name s n2 -> n1 = n2.
 Proof. exact paths_distinct. Qed.
 Print Assumptions C03_paths_distinct_partial.
+
+(* The same for a separator of ANY positive length: guard sep_safe_multi = no character of the tree's
+   separator occurs in a name of the tree (names non-empty).  What stays outside is exactly the
+   territory of K3: names that contain a character of a multi-character separator. *)
+Theorem C03_lookup_roundtrip_multi_partial : forall s m n,
+  WF s -> SU s -> root s m = root s n -> sep_safe_multi s (root s n) ->
+  find_full_path s m (path_name s n) = Ret (Some n).
+Proof. exact lookup_roundtrip_multi. Qed.
+Print Assumptions C03_lookup_roundtrip_multi_partial.
+
+Theorem C03_paths_distinct_multi_partial : forall s n1 n2,
+  WF s -> SU s -> root s n1 = root s n2 -> sep_safe_multi s (root s n2) ->
+  path_name s n1 = path_name s n2 -> n1 = n2.
+Proof. exact paths_distinct_multi. Qed.
+Print Assumptions C03_paths_distinct_multi_partial.
+
+(* non-vacuity for a two-character separator "->": r(a(b)) *)
+Definition mm_nm (i : id) : str := nth i [[114]; [97]; [98]]%N [].
+Definition mm_s : forest :=
+  run {| assertions := true; is_node := true |} (init 3 mm_nm (fun _ => [45; 62]%N))
+      [SetParent 1 (ANode 0) NoFault; SetParent 2 (ANode 1) NoFault].
+Example C03_multi_nonvacuous :
+  path_name mm_s 2 = [45; 62; 114; 45; 62; 97; 45; 62; 98]%N
+  /\ find_full_path mm_s 0 (path_name mm_s 2) = Ret (Some 2).
+Proof. vm_compute. split; reflexivity. Qed.
 
 (* non-vacuity: a 4-node tree a(b(d), c) with separator "/" meets every hypothesis, and the
    lookup of d's path from c returns d *)
